@@ -131,10 +131,21 @@ def run_case(case):
             enc.append(S(status_val(nm, a)))
         else:
             enc.append(vk.profile_val(nm, a))
+    # a get_profile replay that fails midway has consumed an unknown number of draws: the model
+    # cannot resynchronise the script after it, so the compared history stops at that query
+    cut = len(case["queries"])
+    for kq, ((q, i), a) in enumerate(zip(case["queries"], answers)):
+        if q == 6 and isinstance(a, Err) and -nst <= i <= nst - 1:
+            cut = kq + 1
+            break
+    if cut < len(case["queries"]):
+        arg = [arg[0], arg[1], arg[2], [[q, i] for q, i in case["queries"][:cut]]]
+        enc = enc[:cut]
+        tags.append("history-cut-at-failed-replay")
     model = []
     if case["rule"] != "PluralityVeto":
         model.append({"op": 41, "arg": arg, "expect": [vk.states_val(nm, el.election_states), enc], "what": "election + query history",
-                      "queries": [list(q) for q in case["queries"]]})
+                      "queries": [list(q) for q in case["queries"][:cut]]})
     else:
         # PluralityVeto's get_profile mutates the object (known finding); compare the pure queries only
         keep = [k for k, (q, i) in enumerate(case["queries"]) if q != 6]
